@@ -448,7 +448,7 @@ static void setup_nodes(RunState &rs) {
     } else {
         harness_error("unknown scenario " + p.scen);
     }
-    for (size_t i = 0; i < w.nodes.size() && i < 4; i++) w.nodes[i].clock_offset = p.skew[i];
+    for (size_t i = 0; i < w.nodes.size() && i < 4; i++) w.nodes[i].clock_offset = (p.epoch == 0 && p.skew[i] < 0) ? 0 : p.skew[i];
     for (auto &n : w.nodes) n.stdin_eof_at_end = p.stdin_eof;
 }
 
@@ -550,7 +550,8 @@ void exec_plan(const std::string &text, bool verbose) {
     w.tty = p.tty;
     w.can_txq_cap = p.cantxq;
     w.clock_gran = p.clkgran ? p.clkgran : 1;
-    w.t_origin = p.epoch * 1000000000ULL + (p.rseed % 1000000007ULL) * 1000ULL;
+    // (epoch 0: a machine without a real-time clock, started a fraction of a second ago)
+    w.t_origin = p.epoch ? p.epoch * 1000000000ULL + (p.rseed % 1000000007ULL) * 1000ULL : 1000000ULL + (p.rseed % 600000ULL) * 1000ULL;
     w.now = w.t_origin;
     if (sim::g_shm) snprintf(sim::g_shm->context, sizeof sim::g_shm->context, "%s|%s|%s", p.prop.c_str(), p.scen.c_str(), p.mode_str().c_str());
 
@@ -570,7 +571,8 @@ void exec_plan(const std::string &text, bool verbose) {
     w.count(p.o0 == 2 ? "cfg.copy_gcc_O2" : p.o0 ? "cfg.copy_clang_O0_unsigned_char" : "cfg.copy_clang_O1");
     if (p.env_on) w.count("cfg.environment_variables_read_as_set");
     if (p.tty) w.count("cfg.standard_streams_are_a_terminal");
-    if (p.epoch != 1700000000ULL) w.count(p.epoch < 2147483648ULL ? "cfg.date_2038_rollover_inside_the_run" : p.epoch < 4294967000ULL ? "cfg.date_after_2038" : "cfg.date_around_2106");
+    if (p.epoch == 0) w.count("cfg.date_1970_no_real_time_clock");
+    else if (p.epoch != 1700000000ULL) w.count(p.epoch < 2147483648ULL ? "cfg.date_2038_rollover_inside_the_run" : p.epoch < 4294967000ULL ? "cfg.date_after_2038" : "cfg.date_around_2106");
     if (p.stackfill != 0xA5) { sim::Tasks::refill_stacks((uint8_t)p.stackfill); w.count("cfg.stack_fill_other_than_A5"); }
     setup_nodes(rs);
     if (p.lstack >= 64 && p.lstack * 1024 < sim::Tasks::kStackSize && rs.listener >= 0) {
@@ -663,6 +665,15 @@ void exec_plan(const std::string &text, bool verbose) {
     w.hooks.on_handler_done = [](World &w, int node) {
         RunState &rs = *g_rs;
         if (node == rs.listener) { rs.handlers_done++; rs.listener_started = true; if (rs.quiet) rs.settled = true; }
+        (void)w;
+    };
+    w.hooks.on_close_with_queue = [c19](World &w, int node, size_t valid) {
+        RunState &rs = *g_rs;
+        if (c19 || node != rs.listener) return;
+        if (w.nodes[node].stdout_fault_seen) return;  // (on its way out after an injected output error: see on_task_exit)
+        // a listener that closes its socket while it runs (to open a new one, say) throws away what had already arrived: the next
+        // datagram - a valid one, already delivered - is never processed
+        violation("probe-lost:discarded-with-socket", strf("the listener closed its socket while %zu undamaged datagram(s) of its talker were waiting in the receive queue: they are never processed", valid));
         (void)w;
     };
     w.hooks.on_task_exit = [c19](World &w, int node, int code, bool via_exit) {
